@@ -102,10 +102,12 @@ CHECKS = {
              'matching message prefix, call-site signature; ' + _B + ' (codes, ranges, one per line, coverage of error leaves/nodes, determinism)',
              'totality of the rule classes on recovered trees is bounded only; contracts are for an object that is exactly an ErrorFinder; '
              'known findings: f-string error node line, crashes on some recovered trees'),
-    'C15': C('4 C15', 'RegLan equivalence of the coding-cookie search with PEP 263 (tokenize.cookie_re/blank_re); exhaustive bounded check of split_lines and decoding',
-             'D: parso finds a declaration exactly in the CR-free sources where CPython does; B: split_lines on all strings <=4/5 '
-             'over 13 separator characters, decoding vs tokenize.detect_encoding on all <=4/5 atom byte strings',
-             'split_lines proof not attempted (exhaustive bounded instead); str(bytes, enc) trusted'),
+    'C15': C('4 C15', 'RegLan equivalence of the coding-cookie search with PEP 263 (tokenize.cookie_re/blank_re); VCs of the codec choice for bytes input (z3); exhaustive bounded check of split_lines and decoding',
+             'D: parso finds a declaration exactly in the sources where CPython does; python_bytes_to_unicode / detect_encoding: BOM first, '
+             'then the declaration, then the default; unknown codec falls back to UTF-8 only under errors=replace, else LookupError '
+             '(codec machinery uninterpreted, the regex\'s meaning imported from the RegLan obligations); B: split_lines on all strings '
+             '<=4/5 over 13 separator characters, decoding vs tokenize.detect_encoding on all <=4/5 atom byte strings',
+             'split_lines proof not reached (exhaustive bounded instead); str(bytes, enc) trusted'),
     'C16': C('4 C16', 'VCs of the cache functions over a ghost environment (mtime / content version / ghost file system), discharged by z3; '
              'model-free history enumeration with the contract as monitor (bounded), logical clock environment',
              'D: _set_cache_item stores under exactly (grammar, path), GC only removes; load_module serves a memory entry only if '
